@@ -59,7 +59,7 @@ def run(module, cfg=None, env=None, workers=1, simulate=None, depth=None, seed=N
     """Run TLC on spec/<module>.tla with spec/<cfg>.cfg."""
     cwd = cwd or common.SPEC
     meta = common.scratch("tlcmeta-")
-    cmd = ["java", "-XX:+UseParallelGC", f"-Xmx{xmx}"]
+    cmd = ["java", "-XX:+UseParallelGC", f"-Xmx{xmx}", "-Xss64m"]     # deep recursive operators on long traces
     if deque:
         cmd.append("-Dtlc2.tool.queue.IStateQueue=StateDeque")
     cmd += ["-cp", f"{JAR}:{DEPS}", "tlc2.TLC", "-workers", str(workers), "-metadir", meta,
